@@ -11,6 +11,7 @@ CONSTANTS
   ClassExprs <- ClassExprsFull
   Repaired = {}
   Variant = "asCoded"
+  MaxNonces = 1
   MaxSteps = 99
   EmitEdges = TRUE
 INIT Init
@@ -18,5 +19,5 @@ NEXT Next
 VIEW View
 ACTION_CONSTRAINT Emit
 INVARIANTS TypeOK RegistryMatchesDocument
-PROPERTIES ViolationsAreTagged StylesheetServesRegistered ContextsIndependent
+PROPERTIES ViolationsAreTagged StylesheetServesRegistered ContextsIndependent NonceKeepsRegistry
 CHECK_DEADLOCK FALSE
